@@ -392,6 +392,65 @@ func C13(r *h.Run) {
 		}
 	}
 	tr.mu.Unlock()
+	// ---------- (2a) headers handed to user code: a client interceptor appends to the request
+	// headers the library wrote (User-Agent, Accept-Encoding, Te); what one call appends must
+	// never show up in another call's request ----------
+	{
+		hmux := http.NewServeMux()
+		hmux.Handle("/verif.Svc/Seen", connect.NewUnaryHandler("/verif.Svc/Seen", func(_ context.Context, req *connect.Request[h.Raw]) (*connect.Response[h.Raw], error) {
+			res := connect.NewResponse(&h.Raw{B: req.Msg.B})
+			for _, k := range []string{"User-Agent", "Accept-Encoding", "Content-Type", "Te", "Grpc-Accept-Encoding"} {
+				res.Header().Set("X-Seen-"+k, strings.Join(req.Header().Values(k), "|"))
+			}
+			return res, nil
+		}, connect.WithCodec(h.ToyCodec{})))
+		lc := &h.LocalClient{Handler: hmux}
+		var bad atomic.Int64
+		var firstBad atomic.Value
+		for _, proto := range []string{"connect", "grpc", "grpcweb"} {
+			opts := []connect.ClientOption{connect.WithCodec(h.ToyCodec{}), connect.WithInterceptors(appendIcpt{})}
+			switch proto {
+			case "grpc":
+				opts = append(opts, connect.WithGRPC())
+			case "grpcweb":
+				opts = append(opts, connect.WithGRPCWeb())
+			}
+			cl := connect.NewClient[h.Raw, h.Raw](lc, "http://verif.local/verif.Svc/Seen", opts...)
+			var wg3 sync.WaitGroup
+			for g := 0; g < 8; g++ {
+				wg3.Add(1)
+				go func(g int) {
+					defer wg3.Done()
+					for k := 0; k < r.N(12, 60); k++ {
+						id := fmt.Sprintf("app-%s-%d-%d", proto, g, k)
+						req := connect.NewRequest(&h.Raw{B: []byte(id)})
+						req.Header().Set("X-Append-Id", id)
+						res, err := cl.CallUnary(context.Background(), req)
+						if err != nil {
+							continue
+						}
+						for _, k := range []string{"User-Agent", "Accept-Encoding", "Content-Type", "Te", "Grpc-Accept-Encoding"} {
+							seen := res.Header().Get("X-Seen-" + k)
+							for _, part := range strings.Split(seen, "|") {
+								if strings.HasPrefix(part, "app-") && part != id {
+									if bad.Add(1) == 1 {
+										firstBad.Store(map[string]any{"proto": proto, "call": id, "header": k, "handler_saw": seen})
+									}
+								}
+							}
+						}
+					}
+				}(g)
+			}
+			wg3.Wait()
+		}
+		r.Eval("appended_headers", "3 protocols x 8 goroutines")
+		if bad.Load() > 0 {
+			r.Fail(h.Failure{Key: "concurrency/cross-talk", Family: "appended_headers", What: fmt.Sprintf("%d request(s) carried a header value that another call's interceptor had appended", bad.Load()),
+				Input: map[string]any{"clients": "one per protocol, shared by 8 goroutines", "interceptor": "appends the call's id to User-Agent, Accept-Encoding and Te with Header.Add"}, Actual: firstBad.Load()})
+		}
+	}
+
 	// ---------- (2b) the two sides of ONE call ending it at the same instant: the transport
 	// fails the request (the library's request goroutine records the error and closes the
 	// request pipe) while the caller closes the request side. A library goroutine that panics
@@ -453,4 +512,25 @@ func C13(r *h.Run) {
 		}
 	}
 	r.Note("race detector enabled in this binary: %v", raceEnabled)
+}
+
+// appendIcpt appends the call's id (request header X-Append-Id) to headers the library wrote.
+type appendIcpt struct{}
+
+func (appendIcpt) WrapUnary(next connect.UnaryFunc) connect.UnaryFunc {
+	return func(ctx context.Context, req connect.AnyRequest) (connect.AnyResponse, error) {
+		if req.Spec().IsClient {
+			id := req.Header().Get("X-Append-Id")
+			for _, k := range []string{"User-Agent", "Accept-Encoding", "Te"} {
+				req.Header().Add(k, id)
+			}
+		}
+		return next(ctx, req)
+	}
+}
+func (appendIcpt) WrapStreamingClient(next connect.StreamingClientFunc) connect.StreamingClientFunc {
+	return next
+}
+func (appendIcpt) WrapStreamingHandler(next connect.StreamingHandlerFunc) connect.StreamingHandlerFunc {
+	return next
 }
